@@ -745,6 +745,17 @@ func (p *c07prop) gen(r *rand.Rand, kind string, idx int64) C07Case {
 			c.WindowSize = c.MinMatchLen
 		}
 		_, stream := gen.Bytes(r, n, c.Hint())
+		if class != "bigblock" && r.Intn(3) == 0 {
+			// windows smaller than the buffered data and repeats placed at
+			// distance WindowSize-1, WindowSize, WindowSize+1: an offset one
+			// beyond the window is refused by the decoder
+			w := 1 + r.Intn(12)
+			if typ == "GSAP" && w < c.MinMatchLen {
+				w = c.MinMatchLen
+			}
+			c.WindowSize = w
+			stream = gen.Family(r, "lzsynth", n, c.Hint())
+		}
 		flags := make([]int, 8)
 		for i := range flags {
 			if r.Intn(4) == 0 {
@@ -814,6 +825,7 @@ func (p *c07prop) Run(c *core.Case, st *core.Stats) []core.Violation {
 	// the stream must be well-formed in the sense of C02 and expand to the
 	// input, otherwise the premise of C07 does not hold
 	var dec []byte
+	beyond := false
 	for _, blk := range blocks {
 		var xerr error
 		dec, xerr = ref.Expand(dec, blk.Sequences, blk.Literals)
@@ -823,8 +835,11 @@ func (p *c07prop) Run(c *core.Case, st *core.Stats) []core.Violation {
 		}
 		for _, s := range blk.Sequences {
 			if int(s.Offset) > ps.WindowSize {
-				st.Inc("parser_side_failed")
-				return nil
+				// the parser itself left the window (C02): a decoder with
+				// the same window cannot accept what this parser emits,
+				// which is what C07 promises for everything the parsers of
+				// the module emit - the refusal is reported below
+				beyond = true
 			}
 		}
 	}
@@ -884,6 +899,9 @@ func (p *c07prop) Run(c *core.Case, st *core.Stats) []core.Violation {
 					class = "decoder-refuses-sequence-longer-than-BufferSize-minus-WindowSize"
 					known = true
 					st.Inc("refusals_in_known_class")
+				}
+				if beyond && errIs(werr, errStrOffset) {
+					class = "parser-output-beyond-window-refused"
 				}
 				viols = append(viols, core.V(c, class, "%s cfg=%+v: Decoder{W=%d,B=%d}.WriteBlock refused block %d at sequence %d (%v) with %v (n=%d k=%d l=%d)",
 					cc.Cfg.Type, cc.Cfg, W, B, bi, k, seqAt(blk.Sequences, k), werr, n, k, l))
